@@ -352,7 +352,7 @@ impl Check for C19 {
         "C19"
     }
     fn rule(&self) -> String {
-        "(a) proptest-generated files on ext4: 0-100 data segments (non-zero bytes) of 1 B..64 KiB at 4 KiB-aligned and unaligned offsets separated by holes of 1-254 fs blocks (+ skew), data at offset 0 or after a leading hole, data/hole/explicit zeros at EOF, lengths that are not block multiples, fsync'ed or delayed-allocation, data segments optionally inside preallocated (fallocate) ranges; an API probe linked against /repo/libfs prints map_extents, merge_extents(map_extents) and the next_sparse_segments walk; oracle: ranges ordered and pairwise non-overlapping and every non-zero byte of the file (read back with plain read) inside some range. (b) merge_extents laws (every input inside one output; outputs start and end at input boundaries, ordered, disjoint; nothing added but gaps between inputs merged together) on proptest-generated sorted lists (touching, 1-byte gaps, offsets up to 2^50, optionally overlapping/nested: then only coverage and boundary laws), exhaustively on all lists of <=4 extents over 0..=7 sorted by start (overlaps allowed), and EXHAUSTIVELY on every sorted non-overlapping extent list over offsets 0..=U (quick U=14: 514229 lists; thorough U=19). (c) thorough: a libFuzzer target with the same laws inside. Non-trivial: (a) >=2 extents or data segments, (b) >=2 inputs with a touching or 1-gap pair; distinct by case hash (exhaustive lists counted by the probe).".into()
+        "(a) proptest-generated files on ext4: 0-100 data segments (non-zero bytes) of 1 B..64 KiB at 4 KiB-aligned and unaligned offsets separated by holes of 1-254 fs blocks (+ skew), data at offset 0 or after a leading hole, data/hole/explicit zeros at EOF, lengths that are not block multiples, fsync'ed or delayed-allocation, data segments optionally inside preallocated (fallocate) ranges; an API probe linked against /repo/libfs prints map_extents, merge_extents(map_extents) and the next_sparse_segments walk; in a fifth of the cases the k-th lseek(SEEK_DATA/SEEK_HOLE)/FIEMAP call of the probe fails with EINVAL/EIO/EOPNOTSUPP (an error may be returned, data may not be hidden); oracle: ranges ordered and pairwise non-overlapping and every non-zero byte of the file (read back with plain read) inside some range. (b) merge_extents laws (every input inside one output; outputs start and end at input boundaries, ordered, disjoint; nothing added but gaps between inputs merged together) on proptest-generated sorted lists (touching, 1-byte gaps, offsets up to 2^50, optionally overlapping/nested: then only coverage and boundary laws), exhaustively on all lists of <=4 extents over 0..=7 sorted by start (overlaps allowed), and EXHAUSTIVELY on every sorted non-overlapping extent list over offsets 0..=U (quick U=14: 514229 lists; thorough U=19). (c) thorough: a libFuzzer target with the same laws inside. Non-trivial: (a) >=2 extents or data segments, (b) >=2 inputs with a touching or 1-gap pair; distinct by case hash (exhaustive lists counted by the probe).".into()
     }
     fn needs(&self) -> Needs {
         Needs { xcp: false, probe: true, fallback: false }
